@@ -5,13 +5,18 @@ from vlib import songgen
 
 ID = "C02"
 LEAN_MODULE = "Ctrmml.Properties.C02"
-THEOREMS = None
+THEOREMS = ["C02_stream_ends_with_finish_partial", "C02_codec_roundtrip_linear", "C02_codec_roundtrip_segno",
+            "C02_codec_roundtrip_segno_once", "C02_codec_roundtrip_loops_nobreak_partial",
+            "C02_convert_structured_eq", "C02_codec_roundtrip_loops", "C02_codec_roundtrip_track",
+            "C02_stream_at_offset_partial", "C02_call_return_partial", "C02_double_break_counterexample"]
 LEVEL = "proof"
 STREAM = "conv.events+conv.seq"
 CHUNK = 100
 TECHNIQUE = "Lean 4 theorems over the converter model (codec register invariant, structure of emitted streams) + spec interpreter of the real bytes + differential correspondence model<->mdsdrv.cpp"
-LEVEL_TEXT = ("see DESIGN §6 C02 and the theorem list in lean/Ctrmml/Properties/C02.lean: the length-compression codec of convert_track is proved to round-trip for the linear "
-              "fragment (all durations, all adjacencies); the whole-song statement (interpretation of the bytes = expansion of the track) is kept as C02_full_statement and is decided "
+LEVEL_TEXT = ("see DESIGN §6 C02 and the theorem list in lean/Ctrmml/Properties/C02.lean: the length-compression codec of convert_track (real model) followed by the spec interpreter "
+              "Seq.run is proved to give back the tick string for the linear fragment (all durations 1..65535, all adjacencies, 128-tick splitting, length disambiguation), for a loop "
+              "point + loop-back jump (any number of rounds; the D4 join), for nested counted loops with and without break, and for both combined (loops on both sides of a depth-0 loop point) (convert_track proved equal to a structured two-pass "
+              "encoder, C02_convert_structured_eq, then decoded structurally), from arbitrary initial register contents; building blocks for whole chunks: a compiled stream at any offset with any stacks, and the call/return join (PAT); the whole-song statement (interpretation of the bytes = expansion of the track) is kept as C02_full_statement and is decided "
               "per case by the spec interpreter Spec/SeqInterp run on the REAL bytes against Spec/Timeline (perf with drum routines resolved), on generated songs covering every "
               "adjacency of note/tie/rest/command/loop point/loop boundary/call and durations 1..65535; the model reproduces the real converter byte for byte on the same cases.")
 LEVEL_NOTE = ("Trusted: Lean kernel; Model/MdsCodec+MdsConv (byte-exact agreement with mdsdrv.cpp by differential testing); Spec/SeqInterp = my reconstruction of the MDSDRV "
